@@ -78,6 +78,13 @@ class Context:
 
     def fail(self, rule: str, key: str, message: str, f: FuncInfo | None = None,
              node: ast.AST | None = None, path: list[str] | None = None) -> None:
+        import os
+        limit = int(os.environ.get("SA_RESTATED_LIMIT", "0") or 0)
+        if limit and f is not None:
+            d = (getattr(self.prog, "alignment", None) or {}).get("restated", {}).get(f.qualname, 0)
+            if d > limit:
+                raise AnalysisError(f"{f.qualname.split(':')[1]} differs from the reference tree in {d} statements; what rule {rule} found there (`{message[:90]}`) may be a "
+                                    "reading failure of the restated code and is not reported as a violation")
         self.obligations.append({"rule": rule, "key": key, "what": message, "verdict": "violated"})
         self.findings.append(Finding(self.prop, rule, key, message, self.where(f, node), path or []))
 
